@@ -449,49 +449,6 @@ def fixed_dot_cases():
     return F
 
 
-def run_dot(cases, limit=10):
-    """each case in its own harness process; a process that does not finish within `limit` seconds is
-    killed and its unanswered queries are reported as `hang` (a loop inside a builtin cannot be
-    interrupted by the harness watchdog)."""
-    import subprocess
-    import os as _os
-    from concurrent.futures import ThreadPoolExecutor
-    env = dict(_os.environ)
-    env.update(IMPL_ENV)
-
-    def one(c, lim):
-        data = "\n".join(c["impl"]) + "\n"
-        try:
-            p = subprocess.run([core.HARNESS_BIN], input=data, stdout=subprocess.PIPE, stderr=subprocess.PIPE,
-                               text=True, env=env, timeout=lim, errors="replace")
-            out = p.stdout
-        except subprocess.TimeoutExpired as e:
-            out = e.stdout or ""
-            if isinstance(out, bytes):
-                out = out.decode("utf-8", "replace")
-        res = {}
-        for l in out.split("\n"):
-            if l:
-                i, _, r = l.partition("\t")
-                res[i] = r
-        for l in c["impl"]:
-            if l.startswith("Q\t") and core.line_id(l) not in res:
-                res[core.line_id(l)] = "hang(no answer within %d s; not interruptible)" % lim
-                break      # later queries were never started
-        return res
-    impl = {}
-    with ThreadPoolExecutor(max_workers=6) as ex:
-        for r in ex.map(lambda c: one(c, limit), cases):
-            impl.update(r)
-    # a hang is believed only when it repeats with twice the time, alone
-    again = [c for c in cases if any(impl.get(core.line_id(l), "").startswith("hang") for l in c["impl"])]
-    with ThreadPoolExecutor(max_workers=4) as ex:
-        for r in ex.map(lambda c: one(c, 2 * limit + 5), again):
-            impl.update(r)
-    model = core.run_model([l for c in cases for l in c["model"]])
-    return impl, model
-
-
 def fixed_cases():
     """the classic shapes named in the property text and in the builder's task."""
     F = []
@@ -593,9 +550,10 @@ def judge(c, impl, model):
         r = impl.get("%s_%s" % (cid, part), "missing")
         iv = parse_R(r)
         if iv is None:
-            what = "panic" if r.startswith("panic") else ("timeout" if r.startswith("timeout") else ("hang" if r.startswith("hang") else "no-answer"))
-            if r == "missing" and c.get("dot"):
-                continue        # never started: the previous query of the case hung
+            what = "panic" if r.startswith("panic") else ("timeout" if r.startswith("timeout") else (
+                "hang" if r.startswith("hang") else ("abort" if r.startswith("abort") else "no-answer")))
+            if r == "missing" and impl.get("%s_a" % cid, "").startswith(("hang", "abort")):
+                continue        # never started: the previous query of the case hung / killed the process
             sig = {"family": "graph", "part": "acyclic_term" if part == "a" else "other-builtins", "what": what}
             sig.update(feat)
             cc = slim(c)
@@ -628,47 +586,105 @@ def slim(c):
 
 
 def needs_rerun(r):
-    return transient(r) or r.startswith("panic") or "existence_error'('procedure','/'('c24" in r
+    # (after a panic the machine is replaced: later cases of the batch lose library(iso_ext) and the helpers)
+    return transient(r) or r.startswith("panic") or r.startswith("hang") or "existence_error'('procedure'," in r
+
+
+def run_proc(lines, limit):
+    """one harness process under a wall-clock limit. A loop inside a builtin cannot be interrupted by
+    the harness watchdog: the process is killed, the first unanswered query is reported as `hang`,
+    the queries after it as `missing` (never started)."""
+    import subprocess
+    import os as _os
+    env = dict(_os.environ)
+    env.update(IMPL_ENV)
+    data = "\n".join(lines) + "\n"
+    hung = False
+    rc = 0
+    try:
+        p = subprocess.run([core.HARNESS_BIN], input=data, stdout=subprocess.PIPE, stderr=subprocess.PIPE,
+                           text=True, env=env, timeout=limit, errors="replace")
+        out = p.stdout
+        rc = p.returncode
+    except subprocess.TimeoutExpired as e:
+        hung = True
+        out = e.stdout or ""
+        if isinstance(out, bytes):
+            out = out.decode("utf-8", "replace")
+    res = {}
+    for l in out.split("\n"):
+        if l and "\t" in l:
+            i, _, r = l.partition("\t")
+            res[i] = r
+    if hung or rc != 0:
+        for l in lines:
+            if core.line_id(l) not in res:
+                res[core.line_id(l)] = ("hang(no answer within %d s; not interruptible)" % limit) if hung \
+                    else "abort(rc=%d: the harness process died)" % rc
+                break
+    return res
+
+
+def run_parallel(groups, limit, workers):
+    from concurrent.futures import ThreadPoolExecutor
+    impl = {}
+    with ThreadPoolExecutor(max_workers=workers) as ex:
+        for r in ex.map(lambda g: run_proc(g, limit), groups):
+            impl.update(r)
+    return impl
+
+
+def private_lines(c):
+    """the case with a complete private set-up in front of each of its queries (a panic discards the
+    machine; the next line starts a new one), so that no query depends on another."""
+    qs = [l for l in c["impl"] if l.startswith("Q\t") and "_u\t1\tuse_module(" not in l]
+    setup = [l for l in c["impl"] if l not in qs]
+    lines = []
+    for j, q in enumerate(qs):
+        for l in setup:
+            f = l.split("\t")
+            f[1] = "%s_r%d" % (f[1], j)
+            lines.append("\t".join(f))
+        lines.append(q)
+    return lines
 
 
 def run_with_retry(cases, batch=25):
-    """graph cases are sent in batches that share one load of the helper clauses; a case whose
-    lines timed out / panicked / lost their clauses (a panic discards the machine, so the later
-    lines of the batch are affected) is run again alone on a fresh machine, each of its queries
-    separately, before it is judged."""
+    """graph cases are sent in batches that share one load of the helper clauses, one harness
+    process per batch under a wall-clock limit; a case whose queries timed out / panicked / hung /
+    lost their clauses (later lines of the batch are affected) is run again in its own process with a
+    private set-up in front of each query, before it is judged."""
     graph = [c for c in cases if "nodes" in c]
     other = [c for c in cases if "nodes" not in c]
-    batches = []
+    groups = []
     for i in range(0, len(graph), batch):
         lines = [HELPER_LINE % ("b%d" % i), "Q\tc24u_b%d\t1\tuse_module(library(iso_ext))." % i]
         for c in graph[i:i + batch]:
             lines += [l for l in c["impl"] if not l.startswith("L\tc24h") and not l.startswith("Q\t%s_u" % c["id"])]
-        batches.append({"id": "batch%d" % i, "impl": lines})
-    models = [{"id": c["id"] + "_m", "model": c["model"]} for c in graph]
-    impl, model = diff.run_cases(batches + other + models, impl_env=IMPL_ENV)
-    flaky = [c for c in cases if any(needs_rerun(impl.get(core.line_id(l), "missing")) for l in c["impl"]
-                                     if l.startswith("Q\t") and not l.startswith("Q\t%s_u" % c["id"]))]
+        groups.append(lines)
+    groups += [c["impl"] for c in other]
+    impl = run_parallel(groups, 150, 10)
+    model = core.run_model([l for c in graph for l in c["model"]]) if graph else {}
+
+    def bad(c):
+        return any(needs_rerun(impl.get(core.line_id(l), "missing")) for l in c["impl"]
+                   if l.startswith("Q\t") and "_u\t1\tuse_module(" not in l)
+    flaky = [c for c in cases if bad(c)]
     retried = len(flaky)
-    # second pass: every query of an affected case gets its own complete set-up in front of it (a
-    # panic discards the machine; the next line starts a new one), so no line depends on another
-    second = []
-    for c in flaky:
-        qs = [l for l in c["impl"] if l.startswith("Q\t") and not l.startswith("Q\t%s_u" % c["id"]) and not l.endswith("_u\t1\tuse_module(library(lists)).")]
-        setup = [l for l in c["impl"] if l not in qs]
-        lines = []
-        for j, q in enumerate(qs):
-            for l in setup:
-                f = l.split("\t")
-                f[1] = "%s_r%d" % (f[1], j)
-                lines.append("\t".join(f))
-            lines.append(q)
-        second.append({"id": c["id"] + "_2", "impl": lines})
-    if second:
-        impl2, _ = diff.run_cases(second, impl_env=IMPL_ENV)
+    def unanswered(c, res):
+        return any(res.get(core.line_id(l), "missing").startswith(("hang", "missing")) for l in c["impl"]
+                   if l.startswith("Q\t") and "_u\t1\tuse_module(" not in l)
+    if flaky:
+        impl2 = run_parallel([private_lines(c) for c in flaky], 60, 8)
+        # a hang (or a process that did not get far enough under machine load) is believed only when
+        # it repeats, alone, with more time
+        again = [c for c in flaky if unanswered(c, impl2)]
+        if again:
+            impl2.update(run_parallel([private_lines(c) for c in again], 150, 3))
         for c in flaky:
             for l in c["impl"]:
-                if l.startswith("Q\t") and core.line_id(l) in impl2:
-                    impl[core.line_id(l)] = impl2[core.line_id(l)]
+                if l.startswith("Q\t") and "_u\t1\tuse_module(" not in l:
+                    impl[core.line_id(l)] = impl2.get(core.line_id(l), "missing")
     return impl, model, retried
 
 
@@ -697,9 +713,14 @@ def run(ctx):
     t0 = time.time()
     impl, model, retried = run_with_retry(cases + specials)
     if dots:
-        impl_d, model_d = run_dot(dots)
-        impl.update(impl_d)
-        model.update(model_d)
+        # '.'/2 structure cells need op(200,xfy,'.'), which must not leak into the other cases:
+        # one process per case, complete set-up in front of each query
+        impl.update(run_parallel([private_lines(c) for c in dots], 20, 8))
+        again = [c for c in dots if any(impl.get(core.line_id(l), "missing").startswith(("hang", "missing")) for l in c["impl"]
+                                        if l.startswith("Q\t") and "_u\t1\tuse_module(" not in l)]
+        if again:
+            impl.update(run_parallel([private_lines(c) for c in again], 60, 4))
+        model.update(core.run_model([l for c in dots for l in c["model"]]))
         cases = cases + dots
     core.log("[C24] correspondence run: %d cases, %.1fs, %d re-run alone" % (len(cases), time.time() - t0, retried))
     findings, agree = [], 0
